@@ -25,9 +25,9 @@ Definition leak_count (s : shared) : Z := Z.of_nat (length (filter (fun e => (e_
 
 Definition agrees (c : pcase) : bool :=
   let '(s, tr, st) := run_pipe (p_fuel c) (p_cfg c) (p_sched c) in
-  (* vsched reports "done" when the last granted step was the last one of the run, even if it used up the budget *)
-  let stc := if (status_code st =? 2) && finished s then 0 else status_code st in
-  list_eqb zpair_eqb tr (i_trace c) && (stc =? i_status c) &&
+  (* p_fuel = props/ls_common.py fuel_of(budget, status): budget + 1 unless the real run ended by budget, because vsched looks at
+     "all finished" / "nobody runnable" before the step budget and Base.Sched.run looks at the fuel first *)
+  list_eqb zpair_eqb tr (i_trace c) && (status_code st =? i_status c) &&
   list_eqb zlist_eqb (model_log (sh s)) (i_log c) &&
   (if i_status c =? 0 then
      (match result (sh s) with Some r => r =? i_ret c | None => false end) &&
